@@ -231,20 +231,46 @@ def strip_comments(text):
     return "".join(out)
 
 
-def grep_forbidden(dirs=("CaresModel", "CaresLemmas", "CaresProps")):
+def import_closure(mods):
+    """project-local modules reachable from `mods` through import lines"""
+    seen, todo = [], list(mods)
+    while todo:
+        m = todo.pop()
+        if m in seen:
+            continue
+        p = os.path.join(LEAN, *m.split(".")) + ".lean"
+        if not os.path.exists(p):
+            continue
+        seen.append(m)
+        for line in open(p):
+            line = line.strip()
+            if line.startswith("import "):
+                for im in line[7:].split():
+                    if im.split(".")[0] in ("CaresModel", "CaresLemmas", "CaresProps", "Driver"):
+                        todo.append(im)
+            elif line and not line.startswith(("--", "/-", "set_option", "open ", "-/")) and not line.startswith("import"):
+                if not line.startswith("/-") and "import" not in line:
+                    pass
+    return sorted(seen)
+
+
+def grep_forbidden(mods=None):
+    """forbidden constructs in the modules the property's theorems (and driver) depend on"""
+    files = []
+    if mods is None:
+        for d in ("CaresModel", "CaresLemmas", "CaresProps"):
+            for root, _, fs in os.walk(os.path.join(LEAN, d)):
+                files += [os.path.join(root, f) for f in fs if f.endswith(".lean")]
+    else:
+        files = [os.path.join(LEAN, *m.split(".")) + ".lean" for m in import_closure(mods)]
     hits = []
-    for d in dirs:
-        for root, _, files in os.walk(os.path.join(LEAN, d)):
-            for f in files:
-                if not f.endswith(".lean"):
-                    continue
-                p = os.path.join(root, f)
-                txt = strip_comments(open(p).read())
-                # string literals may legitimately contain words; drop them
-                txt = re.sub(r'"(\\.|[^"\\])*"', '""', txt)
-                for ln, line in enumerate(txt.split("\n"), 1):
-                    if FORBIDDEN.search(line):
-                        hits.append("%s:%d: %s" % (os.path.relpath(p, LEAN), ln, line.strip()))
+    for p in sorted(files):
+        txt = strip_comments(open(p).read())
+        # string literals may legitimately contain words; drop them
+        txt = re.sub(r'"(\\.|[^"\\])*"', '""', txt)
+        for ln, line in enumerate(txt.split("\n"), 1):
+            if FORBIDDEN.search(line):
+                hits.append("%s:%d: %s" % (os.path.relpath(p, LEAN), ln, line.strip()))
     return hits
 
 
